@@ -103,6 +103,9 @@ impl Script {
             .map(|e| if let ReadEv::Data(d, _) = e { d.len() } else { 0 })
             .sum()
     }
+    pub fn clear_writes(&self) {
+        self.0.borrow_mut().writes.clear();
+    }
     pub fn clear_reads(&self) {
         self.0.borrow_mut().drop_reads();
     }
